@@ -1391,7 +1391,13 @@ def d3_committors(ck, mod):
                       'the linear system, the committors no longer satisfy the first-step equation of the given matrix.')
         ck.ok(rule + '.solve', mod, solve, u(solve), 'solves (I - Q) B = R')
     # sum over sinks and final pin: the returned object
-    r = returns_of(fn)
+    # every exit: the returns the solve cannot reach are decided on their own (guard and value), the one behind the
+    # solve is the summed, pinned solution
+    r_all = returns_of(fn)
+    early = [x for x in r_all if ss is not None and x is not ss and not fi.cfg.reachable(ss, x)]
+    r = [x for x in r_all if x not in early]
+    if early:
+        _early_exits(ck, rule + '.exits', mod, fn, fi, F, early, tprob, {sources, sinks}, stop)
     if len(r) != 1 or not isinstance(r[0].value, ast.Name):
         ck.missing(rule + '.sum', 'single `return <committors>` (a named array)')
         return
@@ -1447,6 +1453,160 @@ def d3_committors(ck, mod):
           construct_missing='committors[sinks] = 1.0', also={sources: 0}, after=cm[0], names=Cnames,
           legit=(0.0, 1.0), mask_rule=rule + '.value-mask', mask_txt=MASK_TXT)
     _result_container(ck, rule + '.container', mod, fi, F, solve, ss, wrappers, tprob, v[0] == 'match')
+
+
+_SIZE_FORMS = ['len(_S)', '_S.size', '_S.shape[0]', 'np.size(_S)']
+# reductions applied DIRECTLY to an array of state indices (non-negative ints) and the values they can take over the
+# NON-EMPTY index sets: 'bool' = {0, 1}, 'nat' = every non-negative integer
+_VALUE_FORMS = [('_S.any()', 'bool'), ('_S.all()', 'bool'), ('bool(_S)', 'bool'), ('_S.sum()', 'nat'), ('_S.max()', 'nat'),
+                ('_S.min()', 'nat'), ('np.count_nonzero(_S)', 'nat'), ('_S[0]', 'nat'), ('_S[-1]', 'nat'), ('_S', 'bool')]
+_RELS = {ast.Eq: lambda a, b: a == b, ast.NotEq: lambda a, b: a != b, ast.Lt: lambda a, b: a < b, ast.LtE: lambda a, b: a <= b,
+         ast.Gt: lambda a, b: a > b, ast.GtE: lambda a, b: a >= b}
+
+
+def _set_quantity(e, sets):
+    """`e` is a size of / a value reduction over one of the index arrays
+    `sets`: ('size', S, 'nat') / ('value', S, domain); else None."""
+    from ..match import match
+    for p in _SIZE_FORMS:
+        b = match(p, e)
+        if b is not None and isinstance(b['_S'], ast.Name) and b['_S'].id in sets:
+            return 'size', b['_S'].id, 'nat'
+    for p, dom in _VALUE_FORMS:
+        b = match(p, e)
+        if b is not None and isinstance(b['_S'], ast.Name) and b['_S'].id in sets:
+            return 'value', b['_S'].id, dom
+    return None
+
+
+def _atom_about_set(atom, sets):
+    """An atomic conjunct (patterns.conjuncts) that compares a size / value
+    reduction of an index array with a numeric constant (or tests its truth):
+    (kind, S, values of the quantity that satisfy the atom among 0..K,
+    values it can take over NON-EMPTY sets among 0..K); else None.  The
+    enumeration is over the finite abstract domain of ONE scalar quantity."""
+    if isinstance(atom, tuple):
+        _, e, pol = atom
+        q = _set_quantity(e, sets)
+        if q is None:
+            return None
+        rel, k = (lambda a, b: a != b) if pol else (lambda a, b: a == b), 0
+    else:
+        lhs, op, rhs = atom.lhs, atom.op, atom.rhs
+        if const_value(lhs) is not None and const_value(rhs) is None:
+            f = atom.flipped()
+            lhs, op, rhs = f.lhs, f.op, f.rhs
+        k = const_value(rhs)
+        q = _set_quantity(lhs, sets)
+        if q is None or op not in _RELS or isinstance(k, bool) and q[2] != 'bool' or not isinstance(k, (int, float)):
+            return None
+        rel = _RELS[op]
+    kind, S, dom = q
+    top = int(max(k, 0)) + 2
+    allv = [v for v in range(0, top + 1) if rel(v, k)]
+    if kind == 'size':
+        nonempty = [v for v in allv if v >= 1]
+    else:
+        nonempty = [v for v in allv if dom == 'nat' or v <= 1]
+    return kind, S, allv, nonempty
+
+
+def _implies_empty(test, pol, sets, fi, stop):
+    """The test (under the polarity) can only hold when one of the index
+    arrays is EMPTY (a size test no non-empty set satisfies): the exit it
+    guards lies outside the property's quantifier."""
+    if isinstance(test, ast.UnaryOp) and isinstance(test.op, ast.Not):
+        return _implies_empty(test.operand, not pol, sets, fi, stop)
+    if isinstance(test, ast.BoolOp):
+        sub = [_implies_empty(v, pol, sets, fi, stop) for v in test.values]
+        return any(sub) if isinstance(test.op, ast.And) == pol else all(sub)
+    from ..patterns import conjuncts
+    cj = conjuncts(test, pol) or []
+    return any(a is not None and a[0] == 'size' and not a[3] for a in (_atom_about_set(c, sets) for c in cj))
+
+
+def _reads_values(e, name):
+    """Does the expression read the VALUES held by `name` (anything but its
+    shape / length)?"""
+    par = {}
+    for n in ast.walk(e):
+        for c in ast.iter_child_nodes(n):
+            par[c] = n
+    for n in ast.walk(e):
+        if isinstance(n, ast.Name) and n.id == name:
+            p = par.get(n)
+            if isinstance(p, ast.Attribute) and p.attr in ('shape', 'ndim', 'size'):
+                continue
+            if isinstance(p, ast.Call) and call_name(p) in ('len', 'np.shape', 'np.size', 'np.ndim') and n in p.args:
+                continue
+            return True
+    return False
+
+
+def _early_exits(ck, rule, mod, fn, fi, F, early, tprob, sets, stop):
+    """Every way OUT of committors that does not pass through the linear
+    solve.  Away from sources and sinks a committor is the solution of the
+    first-step equations of the given matrix, so for non-empty source and sink
+    sets such an exit can only be right when it is never taken: an exit whose
+    guard holds only for an EMPTY index set lies outside the quantifier; an
+    exit whose guard is a condition on the VALUES of one index array that a
+    non-empty set of state indices satisfies, and whose value does not read
+    the transition probabilities, is a violation; anything else is not
+    decided."""
+    from ..patterns import conjuncts
+    for ret in early:
+        assumes = [a for a in fi.cfg.nodes if isinstance(a, Assume) and fi.cfg.dominates(a, ret)]
+        where = 'exit of %s before the linear solve: %s' % (F, u(ret)[:80])
+        if not assumes:
+            ck.missing(rule, '%s (no guard found)' % where)
+            continue
+        expanded = []
+        raw = False
+        for a in assumes:
+            t = canon(fi.expand(a.test, stop=stop))
+            expanded.append((a, t))
+            for nm in names_loaded(t) & set(sets):
+                if 'PARAM' in fi.rd.defs_at(a.owner, nm):
+                    raw = True      # the caller's object (scalar, list or array), not the flat index array
+        if raw:
+            ck.missing(rule, '%s: the guard tests the caller\'s source/sink argument before it is made a flat index array' % where)
+            continue
+        if any(_implies_empty(t, a.polarity, sets, fi, stop) for a, t in expanded):
+            ck.ok(rule, mod, ret, u(ret)[:80], 'exit taken only for an empty source/sink set (outside the quantifier)')
+            continue
+        atoms = []
+        opaque = False
+        for a, t in expanded:
+            cj = conjuncts(t, a.polarity)
+            if cj is None:
+                opaque = True
+                continue
+            for c in cj:
+                x = _atom_about_set(c, sets)
+                if x is None:
+                    opaque = True
+                else:
+                    atoms.append((a, c, x))
+        val = fi.expand(ret.value, stop=stop) if ret.value is not None else None
+        blind = val is None or (is_pure(val) and not _reads_values(val, tprob))
+        if opaque or len(atoms) != 1 or not blind:
+            ck.missing(rule, '%s: whether this path is taken for non-empty source and sink sets, and what it returns then, '
+                       'is not decided' % where)
+            continue
+        a, c, (kind, S, allv, nonempty) = atoms[0]
+        shown = '%s %s' % ('' if a.polarity else 'not', u(a.test))
+        if not nonempty:
+            ck.missing(rule, '%s: the guard `%s` is not satisfied by any set of valid state indices this rule considered' % (where, shown.strip()))
+            continue
+        ck.bad(rule, mod, ret, F, 'exit before the linear solve: %s' % u(ret)[:80],
+               'this exit returns `%s` - a value that does not depend on the transition probabilities - without solving '
+               '(I - Q) B = R whenever `%s` holds. That is a condition on the %s of the index array `%s`, not on its being empty: '
+               'it holds for non-empty sets of valid state indices (e.g. when the quantity is %d; `any`/`sum`/truthiness of an '
+               'index array look at the state NUMBERS, so the set {0} counts as "nothing"). For such source/sink sets the '
+               'committors must be 1 on the sinks and the transition-weighted average of the neighbours elsewhere; a constant '
+               'vector violates both.'
+               % (u(ret.value)[:60] if ret.value is not None else 'None', shown.strip(),
+                  'VALUES' if kind == 'value' else 'size', S, nonempty[0]))
 
 
 def _result_container(ck, rule, mod, fi, F, solve, ss, wrappers, tprob, direct):
@@ -2091,8 +2251,21 @@ def d_mfpts(ck, mod):
         if not (isinstance(s, ast.Assign) and len(s.targets) == 1 and isinstance(s.targets[0], ast.Name)):
             return False
         t = s.targets[0].id
-        uses = [n for n in walk_local(fn) if isinstance(n, ast.Name) and n.id == t and isinstance(n.ctx, ast.Load)]
-        return bool(uses) and all(fi.temp_value(n) is not None for n in uses)
+        # the uses THIS definition reaches (a later rebinding of the same name - one step of a chain that was one
+        # expression before - has its own uses); each of them must be read through by the expansion
+        uses = []
+        for n in walk_local(fn):
+            if isinstance(n, ast.Name) and n.id == t and isinstance(n.ctx, ast.Load):
+                try:
+                    ds = fi.defs_of_use(n)
+                except Exception:
+                    return False
+                if s in ds:
+                    uses.append(n)
+
+        def read_through(n):
+            return fi.temp_value(n) is not None or _rebound_value(fi, n, (), 8) is not None
+        return bool(uses) and all(read_through(n) for n in uses)
     elsewhere = []
     for s in ([] if unresolved else walk_local(fn)):
         if not isinstance(s, (ast.Assign, ast.AugAssign, ast.AnnAssign, ast.Return)) or s in analysed or s.value is None:
